@@ -151,6 +151,40 @@ def run(chk):
             if not (sa == sb and np.allclose(ka.centroids_, kb.centroids_, rtol=rt, atol=rt) and np.allclose(ka.average_min_distance, kb.average_min_distance, rtol=rt, atol=rt)):
                 chk.fail("k-means training on %s data differs from training on the binary64 copy of the same values" % np.dtype(dt).name,
                          {"dtype": np.dtype(dt).name, "X": hexlist(Xq.astype(float)), "init": hexlist(initq)})
+    # ---- many rows in one call (more than 2**16): the reported criterion is still the mean squared distance of ALL samples
+    for i in range(1 if chk.tier == "quick" else 3):
+        g = gen.nprng(r)
+        Nbig = 70001
+        cb = np.array([[0.0, 0.0], [6.0, 1.0], [-3.0, 5.0]])
+        Xb = cb[g.integers(0, 3, size=Nbig)] + g.normal(size=(Nbig, 2))
+        initb = cb + 0.7
+        d0 = ((initb[:, None, :] - Xb[None, :, :]) ** 2).sum(-1)
+        want_crit = float(d0.min(axis=0).mean())
+        for chb in (None, (Nbig,), (20000, 20000, 20000, 10001)):
+            kmb, _, _ = kt.run_kfit(initb, Xb, chb, cap=1)
+            chk.count(1, key=("many-rows", str(chb)))
+            if not abs(float(kmb.average_min_distance) - want_crit) <= 1e-9 * want_crit:
+                chk.fail("with %d samples (row blocks %s) the reported criterion %.9g is not the mean squared distance %.9g of all samples" % (Nbig, chb, float(kmb.average_min_distance), want_crit),
+                         {"N": Nbig, "row_blocks": list(chb) if chb else None, "init": hexlist(initb), "data": "3 unit-variance clusters around [[0,0],[6,1],[-3,5]], numpy default_rng stream of this run"})
+    # ---- a non-empty cluster whose members sum to exactly zero in one feature (an indicator / padding column, symmetric data): its centroid
+    #      coordinate is the mean, 0, not the entering value
+    for i in range(4 if chk.tier == "quick" else 40):
+        g = gen.nprng(r)
+        n0 = r.choice([4, 6])
+        A = np.column_stack([g.normal(size=n0) - 4.0, np.zeros(n0), g.normal(size=n0)])
+        half = g.normal(size=(n0 // 2, 3)) + np.array([5.0, 1.0, 0.0])
+        half[:, 2] = np.abs(half[:, 2]) + 0.5
+        B = np.vstack([half, half * np.array([1.0, 1.0, -1.0])])          # third feature sums to exactly 0
+        Xz = np.vstack([A, B])
+        initz = np.array([[-4.0, 0.4, 0.3], [5.0, 1.0, 0.7]])
+        for chz in (None, (n0, len(B))):
+            kz, _, _ = kt.run_kfit(initz, Xz, chz, cap=1)
+            labz = np.argmin(((initz[:, None, :] - Xz[None, :, :]) ** 2).sum(-1), axis=0)
+            wantz = np.array([Xz[labz == k].mean(axis=0) for k in range(2)])
+            chk.count(1, key=("zero-sum-feature", bool(chz)))
+            if not np.allclose(np.asarray(kz.centroids_), wantz, rtol=1e-12, atol=1e-12):
+                chk.fail("a cluster whose members sum to exactly 0 in a feature does not get the mean (0) in that coordinate: %s instead of %s" % (np.asarray(kz.centroids_).tolist(), wantz.tolist()),
+                         {"X": hexlist(Xz), "init": hexlist(initz), "chunks": list(chz) if chz else None})
     # ---- boundary cases of the stopping rule and of the criterion
     for i in range(6 if chk.tier == "quick" else 60):
         # (a) no more distinct points than clusters, every cluster non-empty: the distortion reaches exactly 0; training must still end by the cap
